@@ -36,7 +36,7 @@ def run(ctx, crate):
         uses = []
         for s in d.sites:
             for i, a in enumerate(s.args):
-                if T.contains_outside(a, text, D.PARSE) or (s.path == D.PARSE and T.contains(a, text)):
+                if T.contains_outside(a, text, (D.PARSE, D.LINE_FN)) or (s.path in (D.PARSE, D.LINE_FN) and T.contains_outside(a, text, (D.PARSE, D.LINE_FN))):
                     uses.append((s, i))
         for (s, i) in uses:
             ok = (s.path == D.PARSE and i == 0 and s.args[0] == text) or (s.path == D.LINE_FN and i == 1 and s.args[1] == text) or \
